@@ -541,7 +541,7 @@ impl Property for C02 {
         scenario_strategy(times, ALL_SK.to_vec())
     }
     fn cases(tier: Tier) -> u32 {
-        tier.pick(60_000, 300_000)
+        tier.pick(60_000, 1_200_000)
     }
     fn exhaustive(tier: Tier, sink: &mut dyn FnMut(Scenario)) -> Vec<String> {
         let max_nary = tier.pick(4, 5);
